@@ -23,7 +23,9 @@ RULE = ("cases: one seeded history each = original contents O (0..120 bytes), up
         "current_size and existing overwrite boundaries) interleaved with download chunks of random sizes, "
         "eventual-queue turns, download completion and close; half with a plain temporary file (whole file "
         "compared with the model), half with sftpd's EncryptedTemporaryFile (holes are garbage). Part B: "
-        "histories of readChunk/writeChunk/setAttrs/close on GeneralSFTPFile over a scripted download. "
+        "histories of readChunk/writeChunk/setAttrs/close on GeneralSFTPFile over a scripted download. Part C: "
+        "'scattered writes' histories, 8..22 short disjoint client writes issued in random order while the download "
+        "frontier is still near 0 (10 or more entries pending on the overwrite heap), then download pieces of 1..40 bytes. "
         "distinct = distinct (O, history); non-trivial = at least one client write or size change happened "
         "while the download was still incomplete")
 META = {
